@@ -511,6 +511,31 @@ def check_recorder_stream():
             [b.random(), b.randint(0, 99), b.choice([1, 2, 3]), b.choices(range(5), k=3), b.sample(range(9), 2), b.randrange(1, 7)]
 
 
+class debug_logging:
+    """the host application's logging configuration is part of the environment: with the package's loggers at DEBUG (records discarded by a
+    NullHandler) diagnostic code paths run that are skipped otherwise"""
+
+    def __init__(self, on):
+        self.on = on
+
+    def __enter__(self):
+        import logging
+
+        if self.on:
+            self.lg = logging.getLogger("queasars")
+            self.old, self.prop = self.lg.level, self.lg.propagate
+            self.h = logging.NullHandler()
+            self.lg.addHandler(self.h)
+            self.lg.setLevel(logging.DEBUG)
+            self.lg.propagate = False
+
+    def __exit__(self, *a):
+        if self.on:
+            self.lg.setLevel(self.old)
+            self.lg.propagate = self.prop
+            self.lg.removeHandler(self.h)
+
+
 def run_cluster(ctx, prop):
     rng = ctx.rng
     if not check_recorder_stream():
@@ -518,7 +543,9 @@ def run_cluster(ctx, prop):
     for it in range(ctx.n(60, 1500)):
         if ctx.out_of_time():
             break
-        Run(ctx, prop, rng, workers=rng.choice([1, 1, 3])).run(gen_population(rng), gen_sequence(rng))
+        with debug_logging(it % 3 == 1):
+            ctx.dist["logging:DEBUG" if it % 3 == 1 else "logging:default"] += 1
+            Run(ctx, prop, rng, workers=rng.choice([1, 1, 3])).run(gen_population(rng), gen_sequence(rng))
     # a numerically misbehaving evaluator (NaN / infinite values for some individuals): C11's clauses only
     if prop == "C11":
         for it in range(ctx.n(16, 200)):
